@@ -22,7 +22,16 @@ RULE = ("specifications: 1-6 steps in dependency order, ordinary and funnel (_*)
 
 
 def monitor(spec, study, params, steps, dag, hash_ws, root):
-    return SS.expansion_monitor(params, steps, dag, hash_ws)
+    mon, judged = SS.expansion_monitor(params, steps, dag, hash_ws)
+    # `maestro run` stages the study, stores it, and the conductor it starts stages the stored study
+    # again: what holds of the first expansion holds of the next one of the same Study
+    first = SS.serialize(dag)
+    again, dag2 = SS.stage_real(study)
+    if again != first:
+        mon = mon + [("restaging", "the same study staged a second time: %d instances, then %s"
+                      % (len(dag.values) - 1, "%d instances" % (len(dag2.values) - 1) if dag2 is not None else again))]
+        judged = True
+    return mon, judged
 
 
 PGEN = '''from maestrowf.datastructures.core import ParameterGenerator
